@@ -941,3 +941,332 @@ Module Concrete.
                   (seq 0 (length (tc_ins c))))
     end.
 End Concrete.
+
+(* ------------------------------------------------------------------ builder histories *)
+(* Operation sequences on ONE TransactionBuilder.  The builder is the state record [builder]
+   (inputs, per-input sighash arguments, outputs, the LAST computed hashes); [hstep] is the
+   per-operation step function of the code as written:
+     * Add*Input / AddOutput append (a refused input changes nothing);
+     * ComputeSignatureHashes recomputes every digest from the transaction as it is at the call
+       and stores the list (on an error nothing is stored: the previous list stays);
+     * AddSignatures verifies against the STORED list (it recomputes nothing), checks the count
+       against the CURRENT number of inputs, indexes the stored list without a bounds check (an
+       input added after the last computation makes that a run-time panic once all earlier
+       signatures verified) and writes scriptSig / witness into the inputs IN PLACE, one input at
+       a time, so a refusal at input k leaves inputs 0..k-1 already rewritten. *)
+Definition input_args (i : input) : sigargs :=
+  {| sa_value := u_value (in_utxo i);
+     sa_code := match in_kind_ i with KPkh => in_script i | KSh r => r end;
+     sa_witness := is_witness_program (in_script i) |}.
+Definition input_accepted (i : input) : bool :=
+  match add_input new_builder i with Some _ => true | None => false end.
+(* the unsigned transaction made of these inputs and outputs *)
+Definition tx_of (ins : list input) (outs : list (Z * bytes)) : tx_skel :=
+  {| tx_version := 1;
+     tx_ins := map (fun i => {| ti_txid := u_txid (in_utxo i); ti_vout := u_vout (in_utxo i);
+                                ti_seq := max_seq |}) ins;
+     tx_outs := outs; tx_lock := 0 |}.
+(* THE signature hashes of a transaction: a function of its inputs and outputs only *)
+Definition tx_sighashes (ins : list input) (outs : list (Z * bytes)) : option (list sighash) :=
+  hashes_from (tx_of ins outs) 0 (map input_args ins).
+
+Inductive hres :=
+| RAdded | RAddErr                       (* Add*Input: nil / error *)
+| RVoid                                  (* AddOutput *)
+| RHashes (hs : list sighash) | RHashErr (* ComputeSignatureHashes *)
+| RTx (t : signed_tx) | RRefused | RPanic. (* AddSignatures *)
+
+Inductive sflag := FDone | FRefused | FPanic.
+
+Section History.
+  Variable sigT : Type.
+  Variable der : sigT -> bytes.
+  Variable ecdsa_verify : bytes -> sighash -> sigT -> bool.
+
+  Inductive hop :=
+  | HAddIn (i : input)
+  | HAddOut (v : Z) (s : bytes)
+  | HCompute
+  | HSign (sigs : list (sigT * bytes)).
+
+  Definition signed_pre (p : pre_in) (si : signed_in) : pre_in :=
+    {| pi_txid := pi_txid p; pi_vout := pi_vout p;
+       pi_script := si_script si; pi_witness := si_witness si |}.
+
+  (* the loop of AddSignatures over tb.internal.TxIn, with the in-place writes *)
+  Fixpoint sign_mut (ins : list pre_in) (args : list sigargs) (hs : list sighash)
+           (sigs : list (sigT * bytes)) : list pre_in * sflag :=
+    match ins, args, sigs with
+    | [], _, _ => ([], FDone)
+    | p :: ins', a :: args', (sg, pk) :: sigs' =>
+        match hs with
+        | [] => (ins, FPanic)                        (* tb.sigHashes[i]: index out of range *)
+        | h :: hs' =>
+            match sign_input sigT der ecdsa_verify p a h sg pk with
+            | None => (ins, FRefused)
+            | Some si => let (r, f) := sign_mut ins' args' hs' sigs' in (signed_pre p si :: r, f)
+            end
+        end
+    | _, _, _ => (ins, FPanic)                       (* unreachable after the count check *)
+    end.
+
+  Definition as_signed (p : pre_in) : signed_in :=
+    {| si_script := pi_script p; si_witness := pi_witness p |}.
+
+  Definition add_signatures_h (b : builder) (sigs : list (sigT * bytes)) : builder * hres :=
+    match b_hashes b with
+    | [] => (b, RRefused)
+    | _ =>
+        if negb (length sigs =? length (b_ins b))%nat then (b, RRefused)
+        else
+          let (ins', f) := sign_mut (b_ins b) (b_args b) (b_hashes b) sigs in
+          let b' := {| b_ins := ins'; b_args := b_args b; b_outs := b_outs b;
+                       b_hashes := b_hashes b |} in
+          (b', match f with
+               | FDone => RTx {| st_skel := skeleton b'; st_ins := map as_signed ins' |}
+               | FRefused => RRefused
+               | FPanic => RPanic
+               end)
+    end.
+
+  Definition hstep (b : builder) (o : hop) : builder * hres :=
+    match o with
+    | HAddIn i => match add_input b i with Some b' => (b', RAdded) | None => (b, RAddErr) end
+    | HAddOut v s => (add_output b v s, RVoid)
+    | HCompute => match compute_hashes b with
+                  | Some b' => (b', RHashes (b_hashes b'))
+                  | None => (b, RHashErr)
+                  end
+    | HSign sigs => add_signatures_h b sigs
+    end.
+
+  Fixpoint hrun (b : builder) (ops : list hop) : builder * list hres :=
+    match ops with
+    | [] => (b, [])
+    | o :: t => let (b1, r) := hstep b o in let (b2, rs) := hrun b1 t in (b2, r :: rs)
+    end.
+
+  (* the transaction a history has assembled: the accepted inputs and the outputs, in order *)
+  Fixpoint hist_ins (ops : list hop) : list input :=
+    match ops with
+    | [] => []
+    | HAddIn i :: t => if input_accepted i then i :: hist_ins t else hist_ins t
+    | _ :: t => hist_ins t
+    end.
+  Fixpoint hist_outs (ops : list hop) : list (Z * bytes) :=
+    match ops with
+    | [] => []
+    | HAddOut v s :: t => (v, s) :: hist_outs t
+    | _ :: t => hist_outs t
+    end.
+  Definition is_sign (o : hop) : bool := match o with HSign _ => true | _ => false end.
+  Definition is_compute (o : hop) : bool := match o with HCompute => true | _ => false end.
+  Definition adds_input (o : hop) : bool :=
+    match o with HAddIn i => input_accepted i | _ => false end.
+End History.
+Arguments HAddIn {sigT} i.
+Arguments HAddOut {sigT} v s.
+Arguments HCompute {sigT}.
+Arguments HSign {sigT} sigs.
+
+(* ---- correspondence: history cases ---- *)
+(* a digest of the table: input [idx] of the transaction with the first [nins] inputs and the
+   first [nouts] outputs of the history (operations only append, so the two counts identify the
+   transaction), computed by the driver with btcd on a freshly built wire.MsgTx *)
+Record hrow := { hr_nins : nat; hr_nouts : nat; hr_idx : nat; hr_ver : sigver;
+                 hr_code : code_kind; hr_value : Z; hr_id : N }.
+
+Inductive cop :=
+| CAddIn (i : input) (p2pkh : bytes)     (* p2pkh: btcd's P2PKH script of a P2WPKH program, else [] *)
+| CAddOut (v : Z) (s : bytes)
+| CCompute
+| CSign (ks : list nat).                 (* positions in hc_sigs *)
+
+Inductive hobs := BAdded | BAddErr | BVoid | BHashes (ids : list N) | BHashErr
+                | BTx | BRefused | BPanic.
+
+Record fin_in := { fi_engine : option bool; fi_script_sig : bytes; fi_witness : list bytes }.
+
+Record hist_case := { hc_ops : list cop;
+                      hc_obs : list hobs;           (* what each call returned *)
+                      hc_rows : list hrow;
+                      hc_hash160 : list (bytes * bytes);
+                      hc_sha256 : list (bytes * bytes);
+                      hc_sigs : list sig_obs;
+                      hc_final : list fin_in;        (* inputs of the transaction of the LAST call,
+                                                        when that call is AddSignatures and produced one *)
+                      hc_expect_valid : bool;        (* wallet / deposit inputs only, the last call is
+                                                        AddSignatures with signatures by the committed keys
+                                                        over the hashes of the last computation, nothing was
+                                                        added after that computation *)
+                      hc_must_reject : bool }.       (* the last call is AddSignatures with a wrong count or a
+                                                        signature not valid for the stored hash of its input *)
+
+Module Hist.
+  Definition accepted_ins (c : hist_case) : list (input * bytes) :=
+    flat_map (fun o => match o with
+                       | CAddIn i p => if input_accepted i then [(i, p)] else []
+                       | _ => []
+                       end) (hc_ops c).
+
+  Definition code_of (ip : input * bytes) (k : code_kind) : bytes :=
+    match k with
+    | KUtxoScript => in_script (fst ip)
+    | KRedeem => match in_kind_ (fst ip) with KSh r => r | KPkh => [] end
+    | KP2pkhOfProgram => snd ip
+    end.
+
+  Definition did (c : hist_case) (h : sighash) : option N :=
+    if negb (sh_type h =? sighash_all) then None else
+    match nth_error (accepted_ins c) (sh_idx h) with
+    | None => None
+    | Some ip =>
+        match filter (fun r => (hr_nins r =? length (tx_ins (sh_tx h)))%nat
+                               && (hr_nouts r =? length (tx_outs (sh_tx h)))%nat
+                               && (hr_idx r =? sh_idx h)%nat
+                               && sigver_eqb (hr_ver r) (sh_ver h)
+                               && bytes_eqb (code_of ip (hr_code r)) (sh_code h)
+                               && match sh_ver h with
+                                  | Legacy => true
+                                  | Bip143 => (hr_value r =? sh_value h)%Z
+                                  end) (hc_rows c) with
+        | r :: _ => Some (hr_id r)
+        | [] => None
+        end
+    end.
+
+  Definition der (c : hist_case) (k : nat) : bytes :=
+    match nth_error (hc_sigs c) k with Some s => so_der s | None => [] end.
+  Definition ecdsa_verify (c : hist_case) (pk : bytes) (h : sighash) (k : nat) : bool :=
+    match nth_error (hc_sigs c) k, did c h with
+    | Some s, Some d => bytes_eqb pk (so_pk s) && existsb (N.eqb d) (so_valid_for s)
+    | _, _ => false
+    end.
+  Definition checksig (c : hist_case) (pk derb : bytes) (h : sighash) : bool :=
+    match did c h with
+    | Some d => existsb (fun s => bytes_eqb pk (so_pk s) && bytes_eqb derb (so_der s)
+                                  && existsb (N.eqb d) (so_valid_for s)) (hc_sigs c)
+    | None => false
+    end.
+
+  Definition to_hop (c : hist_case) (o : cop) : hop nat :=
+    match o with
+    | CAddIn i _ => HAddIn i
+    | CAddOut v s => HAddOut v s
+    | CCompute => HCompute
+    | CSign ks => HSign (map (fun k => (k, match nth_error (hc_sigs c) k with
+                                           | Some s => so_pk s | None => [] end)) ks)
+    end.
+
+  Definition model_run (c : hist_case) : builder * list hres :=
+    hrun nat (der c) (ecdsa_verify c) new_builder (map (to_hop c) (hc_ops c)).
+
+  Definition obs_match (c : hist_case) (r : hres) (o : hobs) : bool :=
+    match r, o with
+    | RAdded, BAdded | RAddErr, BAddErr | RVoid, BVoid | RHashErr, BHashErr
+    | RTx _, BTx | RRefused, BRefused | RPanic, BPanic => true
+    | RHashes hs, BHashes ids => list_eqb (opt_eqb N.eqb) (map (did c) hs) (map Some ids)
+    | _, _ => false
+    end.
+
+  Fixpoint all2 {A B} (f : A -> B -> bool) (a : list A) (b : list B) : bool :=
+    match a, b with
+    | [], [] => true
+    | x :: a', y :: b' => f x y && all2 f a' b'
+    | _, _ => false
+    end.
+
+  Definition model_engine (c : hist_case) (tx : signed_tx) (i : nat) : vres :=
+    match nth_error (st_ins tx) i, nth_error (accepted_ins c) i with
+    | Some si, Some ip =>
+        verify_input (table_fn (hc_hash160 c)) (table_fn (hc_sha256 c)) (fun _ => true)
+                     (checksig c) (st_skel tx) i (si_script si) (si_witness si)
+                     (in_script (fst ip)) (u_value (in_utxo (fst ip)))
+    | _, _ => Reject
+    end.
+
+  Definition last_tx (rs : list hres) : option signed_tx :=
+    match rev rs with RTx t :: _ => Some t | _ => None end.
+  Definition last_is_tx (os : list hobs) : bool :=
+    match rev os with BTx :: _ => true | _ => false end.
+
+  Definition agree_final (c : hist_case) (tx : signed_tx) : bool :=
+    (length (hc_final c) =? length (st_ins tx))%nat &&
+    Concrete.forallb_i
+      (fun i fi => match nth_error (st_ins tx) i with
+                   | Some si => bytes_eqb (si_script si) (fi_script_sig fi)
+                                && list_eqb bytes_eqb (si_witness si) (fi_witness fi)
+                                && match fi_engine fi with
+                                   | Some e => vres_eqb (model_engine c tx i)
+                                                        (if e then Accept else Reject)
+                                   | None => false
+                                   end
+                   | None => false
+                   end) 0 (hc_final c).
+
+  Definition agree (c : hist_case) : bool :=
+    let rs := snd (model_run c) in
+    all2 (obs_match c) rs (hc_obs c)
+    && match last_tx rs with
+       | Some tx => agree_final c tx
+       | None => match hc_final c with [] => true | _ => false end
+       end.
+
+  (* an accepted input was added after the last ComputeSignatureHashes that returned hashes (then
+     AddSignatures indexes the stored list out of range: the one place where the code as written
+     panics) *)
+  Fixpoint input_after_compute (ops : list cop) (obs : list hobs) (pending : bool) : bool :=
+    match ops, obs with
+    | CAddIn i _ :: t, BAdded :: t' => input_after_compute t t' true
+    | CCompute :: t, BHashes _ :: t' => input_after_compute t t' false
+    | _ :: t, _ :: t' => input_after_compute t t' pending
+    | _, _ => pending
+    end.
+
+  (* ---- the property, on the implementation's outputs ---- *)
+  Definition spec_ok (c : hist_case) : bool :=
+    (* signatures over the last computation, nothing added since: a transaction, every input passes *)
+    (if hc_expect_valid c
+     then last_is_tx (hc_obs c)
+          && negb (match hc_final c with [] => true | _ => false end)
+          && forallb (fun fi => match fi_engine fi with Some true => true | _ => false end)
+                     (hc_final c)
+     else true)
+    && (if hc_must_reject c then negb (last_is_tx (hc_obs c)) else true)
+    && (if existsb (fun o => match o with BPanic => true | _ => false end) (hc_obs c)
+        then input_after_compute (hc_ops c) (hc_obs c) false else true).
+
+  Definition unsupported (c : hist_case) : bool :=
+    match last_tx (snd (model_run c)) with
+    | Some t => existsb (fun i => vres_eqb (model_engine c t i) Unsupported)
+                        (seq 0 (length (st_ins t)))
+    | None => false
+    end.
+
+  Definition judge (c : hist_case) : verdict :=
+    if unsupported c then BadCase else decide (spec_ok c) (agree c).
+
+  (* what --replay prints: per call, the model's result (digest ids for a computation), and the
+     model's engine verdicts for the final transaction *)
+  Definition explain (c : hist_case) : list (hobs * list (option N)) * list vres :=
+    let rs := snd (model_run c) in
+    (map (fun r => match r with
+                   | RAdded => (BAdded, []) | RAddErr => (BAddErr, []) | RVoid => (BVoid, [])
+                   | RHashes hs => (BHashes [], map (did c) hs) | RHashErr => (BHashErr, [])
+                   | RTx _ => (BTx, []) | RRefused => (BRefused, []) | RPanic => (BPanic, [])
+                   end) rs,
+     match last_tx rs with
+     | Some t => map (model_engine c t) (seq 0 (length (st_ins t)))
+     | None => []
+     end).
+End Hist.
+
+(* the case type of the check: one transaction (one pass over a fresh builder) or one history *)
+Inductive any_case := CTx (c : tx_case) | CHist (c : hist_case).
+Definition judge_any (c : any_case) : verdict :=
+  match c with CTx c => Concrete.judge c | CHist c => Hist.judge c end.
+Definition explain_any (c : any_case) :=
+  match c with
+  | CTx c => (Concrete.explain c, None)
+  | CHist c => (None, Some (Hist.explain c))
+  end.
